@@ -323,8 +323,14 @@ fn park(x: &mut Exec) -> Res {
                 if !*has || i % unparkers != u {
                     continue;
                 }
+                // bounded: if the target is stranded the unparker must end too, so that the
+                // quiescence oracle can name the open park instead of a polling actor
+                let t0 = Instant::now();
                 while !started[i].load(SeqCst) {
-                    nap(20);
+                    nap(100);
+                    if t0.elapsed() > Duration::from_secs(4) {
+                        return;
+                    }
                 }
                 nap(*delay);
                 a.call("unpark", i as u64);
@@ -1002,7 +1008,13 @@ fn pan(x: &mut Exec) -> Res {
         x.wait_cond(&|| hs_ref.iter().all(|(_, _, h)| h.is_done()))?;
     }
     for (i, kind, h) in hs {
-        match (kind, h.join()) {
+        let res = h.join();
+        if let Ok(v) = &res {
+            if *v == usize::MAX - 4 {
+                return viol(format!("coroutine {} (kind {}) observed thread::panicking() == true although it was not panicking (another coroutine was switched out while unwinding on this worker)", i, kind));
+            }
+        }
+        match (kind, res) {
             (0..=3 | 5 | 6 | 9, Err(e)) => {
                 let ok = e.downcast_ref::<String>().map(|s| s == &format!("P{}", i)).unwrap_or(false);
                 if !ok {
